@@ -196,6 +196,10 @@ func init() {
 			cfg.W = map[string]int{"sub": 24, "unsub": 24, "get": 10, "call": 3, "callres": 10, "new": 5, "auth": 5, "change": 4, "add": 2, "remove": 2, "delete": 1, "reaccess": 2}
 			return cfg
 		})
+		// the access-gating workload (token changes, reaccess events, denials
+		// and errors as access answers): revocation and requests in progress
+		// release the same direct subscriptions
+		runHistories(c, n/4, "gating", gatingCfg)
 		if !c.Race {
 			c08Limit(c)
 		}
